@@ -232,6 +232,10 @@ type EqCase struct {
 	// the same verb and path position as Rule.Bindings[0] but maps differently (other captured
 	// field, body or response_body). The configured rule must still be bound and behave as written.
 	Annot *route.Binding `json:"annot,omitempty"`
+	// Dup: the config selects the method twice - first with a rule that only has the primary
+	// binding, then with the full rule (same primary plus additional bindings), as happens when a
+	// wildcard rule and an exact rule, or AddHealthz and a user rule, restate one pattern.
+	Dup bool `json:"dup,omitempty"`
 }
 
 type eqOutcome struct {
@@ -272,6 +276,11 @@ func CheckEq(c EqCase) ([]evid.Violation, int) {
 	rule := proto.Clone(c.Rule.HTTPRule()).(*annotations.HttpRule)
 	rule.Selector = "rt.Svc0.Mth"
 	cfg := &serviceconfig.Service{Http: &annotations.Http{Rules: []*annotations.HttpRule{rule}}}
+	if c.Dup {
+		first := proto.Clone(rule).(*annotations.HttpRule)
+		first.AdditionalBindings = nil
+		cfg.Http.Rules = []*annotations.HttpRule{first, rule}
+	}
 	cfgWorld := route.World(rs, false)
 	if c.Annot != nil {
 		cfgWorld = route.World(route.RuleSet{{Bindings: []route.Binding{*c.Annot}}}, true)
@@ -340,6 +349,7 @@ func TestPropEquiv(t *testing.T) {
 				c.Annot = &a
 			}
 		}
+		c.Dup = len(c.Rule.Bindings) > 1 && rapid.IntRange(0, 2).Draw(t, "dup") == 0
 		hasVarOrBody := false
 		for _, b := range c.Rule.Bindings {
 			tm, _ := ref.ParseTemplate(b.Tmpl)
@@ -386,7 +396,9 @@ func TestPropEquiv(t *testing.T) {
 			}
 			key = "eq|" + strings.Join(shapes, ";")
 		}
-		if c.Annot != nil {
+		if c.Dup {
+			evid.Eval(key, "equivalence", "config-restates-primary-pattern")
+		} else if c.Annot != nil {
 			evid.Eval(key, "equivalence", "config-rule-overrides-own-annotation")
 		} else {
 			evid.Eval(key, "equivalence")
